@@ -178,6 +178,22 @@ def _arch(rng):
                                    "local": [{"name": "L2", "class": "Cache", "attributes": {"width": 64, "depth": 1024, "bandwidth": l2bw}}],
                                    "subtree": subtree}]}]
         info[cfg] = {"freq": freq, "inst": inst, "bw": {"DRAM": bw}}
+    # class names and intersector types are case-insensitive in the compiler: write some of them in another case
+    recase = {}
+
+    def fix(lv):
+        for comp in lv.get("local") or []:
+            key = comp["name"]
+            if key not in recase:
+                recase[key] = (rng.choice(["upper", "title", "lower"]) if rng.random() < 0.2 else None,
+                               rng.choice(["upper", "title"]) if rng.random() < 0.3 else None)
+            c, t = recase[key]
+            if c:
+                comp["class"] = getattr(comp["class"], c)()
+            if t and comp["class"].lower() == "intersector":
+                comp["attributes"]["type"] = getattr(comp["attributes"]["type"], t)()
+    for levels in cfgs.values():
+        _walk_levels(levels, fix)
     return cfgs, info
 
 
